@@ -19,6 +19,7 @@ halmos is imported from $HALMOS_REPO/src via vlib.impl.use_repo().
 from __future__ import annotations
 
 import contextlib
+import gc
 import io
 import json
 import logging
@@ -30,6 +31,7 @@ import stat
 import sys
 import tempfile
 import threading
+import time
 from dataclasses import dataclass, field
 from pathlib import Path
 
@@ -261,8 +263,12 @@ def reset_halmos_state():
             flt.records.clear()
 
 
+_stale_threads: set = set()
+
+
 def _drain_executors(timeout=10.0):
-    """wait for every solver subprocess thread registered so far (early exit kills them asynchronously)"""
+    """wait for every solver subprocess thread registered so far (early exit kills them asynchronously) and for the
+    per-function thread-pool workers (their done-callbacks may still be printing when run_test raised)"""
     use_repo()
     from halmos.processes import ExecutorRegistry
 
@@ -270,6 +276,14 @@ def _drain_executors(timeout=10.0):
         for fut in list(ex.futures):
             with contextlib.suppress(Exception):
                 fut.result(timeout=timeout)
+    # pool workers of a run_test that raised are never shut down: wait only briefly, and only once per thread
+    me = threading.current_thread()
+    deadline = time.time() + 0.5
+    for t in list(threading.enumerate()):
+        if t is not me and re.search(r"-_\d+$", t.name) and id(t) not in _stale_threads:
+            t.join(timeout=max(0.0, deadline - time.time()))
+            if t.is_alive():
+                _stale_threads.add(id(t))
 
 
 class _Capture(logging.Handler):
@@ -281,6 +295,21 @@ class _Capture(logging.Handler):
     def emit(self, record):
         with self._lock2:
             self.records.append((record.levelname, record.getMessage()))
+
+
+@contextlib.contextmanager
+def gc_paused():
+    """No automatic cyclic GC while halmos' worker threads exist: a collection triggered on a callback thread would
+    release z3 objects while the main thread is inside a z3 call (z3 contexts are not thread-safe; seen as
+    `UNEXPECTED CODE WAS REACHED` aborts). Collect on the calling thread afterwards. (halmos has --disable-gc for this.)"""
+    was = gc.isenabled()
+    gc.disable()
+    try:
+        yield
+    finally:
+        gc.collect()
+        if was:
+            gc.enable()
 
 
 @contextlib.contextmanager
@@ -444,7 +473,7 @@ def run_contract_offline(desc, *, solver_command=None, solver=None, cli_args=(),
         _solver_overrides(solver_command, solver, ov)
         ov.setdefault("no_status", True)
         ov.setdefault("dump_smt_directory", os.path.join(tmp, "smt"))
-        with capture_halmos(echo) as (buf, cap):
+        with gc_paused(), capture_halmos(echo) as (buf, cap):
             args, argv = make_config(tmp, cli_args, **ov)
             bom, built = make_build_out_map([desc, *others])
             register_symbols(bom, args)
@@ -499,7 +528,7 @@ def run_main_offline(descs, *, solver_command=None, solver=None, cli_args=(), wo
         if threading.current_thread() is threading.main_thread():
             for s in (signal.SIGINT, signal.SIGTERM):
                 old_handlers[s] = signal.getsignal(s)
-        with capture_halmos(echo) as (buf, cap):
+        with gc_paused(), capture_halmos(echo) as (buf, cap):
             try:
                 try:
                     res = hm._main(argv)
